@@ -24,7 +24,7 @@ RULE = ('histories of export / re-export (another object at an exported path) / 
         'each with all interfaces of that object and exactly its readable properties with current values (strict '
         'reference decode); every export / unexport emitted exactly one InterfacesAdded / InterfacesRemoved naming that '
         'path and interface set. Non-trivial = the exported set contains a textual-but-not-segment prefix pair or a '
-        'grandchild without its parent; distinct = distinct history JSON.')
+        'grandchild without its parent; distinct = distinct history JSON. The two interfaces share one property NAME (Rw: i on T1, s on T2).')
 ASSUMPTIONS = ['properties are assigned before export; only exported paths are unexported']
 
 POOL = ['/', '/a', '/a/b', '/a/bc', '/a/b/c', '/a/b/c/d', '/ab', '/a_b', '/b']
@@ -49,9 +49,10 @@ def _make_class(variant):
     i1 = I.DBusInterface('org.verif.T1', I.Method('Poke', '', 's'),
                          I.Property('Ro', 's'), I.Property('Rw', 'i', writeable=True),
                          I.Property('Wo', 's', readable=False, writeable=True), I.Property('Late', 's'), noRegister=True)
+    # T2 declares a property with the SAME NAME as one of T1 (properties are scoped per interface), other type, other value
     i2 = I.DBusInterface('org.verif.T2', I.Property('Num', 'u'), I.Property('Quiet', 'q', emitsOnChange=False),
-                         noRegister=True)
-    base_ns = {'Ro': O.DBusProperty('Ro'), 'Rw': O.DBusProperty('Rw'), 'Wo': O.DBusProperty('Wo'),
+                         I.Property('Rw', 's'), noRegister=True)
+    base_ns = {'Ro': O.DBusProperty('Ro'), 'Rw': O.DBusProperty('Rw', 'org.verif.T1'), 'Wo': O.DBusProperty('Wo'),
                'dbus_Poke': lambda self: 'poked', 'dbusInterfaces': [i1]}
     if variant == 0:
         return type('Tree0', (O.DBusObject,), base_ns)
@@ -59,12 +60,14 @@ def _make_class(variant):
         ns = dict(base_ns)
         ns['Num'] = O.DBusProperty('Num')
         ns['Quiet'] = O.DBusProperty('Quiet')
+        ns['Rw2'] = O.DBusProperty('Rw', 'org.verif.T2')
         ns['dbusInterfaces'] = [i1, i2]
         ns['__len__'] = lambda self: 0      # an exported object may be an (empty) container: false in a boolean context
         return type('Tree1', (O.DBusObject,), ns)
     base = type('Tree2Base', (O.DBusObject,), base_ns)
     return type('Tree2', (base,), {'Late': O.DBusProperty('Late', 'org.verif.T1'), 'Num': O.DBusProperty('Num'),
-                                   'Quiet': O.DBusProperty('Quiet'), 'dbusInterfaces': [i2]})
+                                   'Quiet': O.DBusProperty('Quiet'), 'Rw2': O.DBusProperty('Rw', 'org.verif.T2'),
+                                   'dbusInterfaces': [i2]})
 
 
 def _new_obj(classes, path, variant, stamp):
@@ -75,6 +78,7 @@ def _new_obj(classes, path, variant, stamp):
     if variant >= 1:
         o.Num = stamp + 1000
         o.Quiet = stamp + 7
+        o.Rw2 = 'two-%d' % stamp
     if variant == 2:
         o.Late = 'late-%d' % stamp
     return o
@@ -90,7 +94,7 @@ def _is_under(q, p):
 
 
 def _call(MSG, h, conn, path, iface, member, serial):
-    raw = R.encode_message(1, serial, {1: path, 2: iface, 3: member, 7: ':1.3', 6: ':1.4'})
+    raw = R.encode_variant(serial, 1, serial, {1: path, 2: iface, 3: member, 7: ':1.3', 6: ':1.4'})
     del conn.sent[:]
     h.handleMethodCallMessage(MSG.parseMessage(raw, []))
     out = list(conn.sent)
@@ -103,7 +107,8 @@ def _expected_props(model_obj):
     changed = model_obj[3] if len(model_obj) > 3 else {}
     want = {'org.verif.T1': {'Ro': ['s', 'ro-%s-%d' % (path, stamp)], 'Rw': ['i', changed.get('Rw', stamp)]}, PROPS: {}}
     if variant >= 1:
-        want['org.verif.T2'] = {'Num': ['u', stamp + 1000], 'Quiet': ['q', changed.get('Quiet', stamp + 7)]}
+        want['org.verif.T2'] = {'Num': ['u', stamp + 1000], 'Quiet': ['q', changed.get('Quiet', stamp + 7)],
+                                'Rw': ['s', 'two-%d' % stamp]}
     if variant == 2:
         want['org.verif.T1']['Late'] = ['s', 'late-%d' % stamp]
     return want
